@@ -114,7 +114,7 @@ def brentsroot(f, bounds, tol=None, verbose=False, return_interval=False):
     fa = f(a)
     fb = f(b)
 
-    if fa * fb >= D.epsilon(lower_bound.dtype):
+    if D.ar_numpy.sign(fa) * D.ar_numpy.sign(fb) > 0:
         return D.ar_numpy.asarray(numpy.inf, like=lower_bound), False
     if D.ar_numpy.abs(fa) < D.ar_numpy.abs(fb):
         a, b = b, a
